@@ -32,7 +32,9 @@ Print Assumptions C18_no_data_before_accept.
      802 a forged accept message did not fail the connection with the right error
      803 data reached the handlers / pending requests / the message id before the connection was accepted
      804 the handshake was marked complete although neither ready was declared on this connection nor
-         (control connections) the server was accepted *)
+         (control connections) the server was accepted
+     805 Ready reported success although no ready message carrying the declared next message id was
+         written to the connection *)
 Theorem C18_monitor_silent : forall (full : bool) (qcap : Z) (ops : list op),
   c18_monitor full ops (run full qcap ops) = None.
 Proof. exact c18_monitor_silent. Qed.
